@@ -16,6 +16,14 @@ def make_harness(spec, params):
 
 def _worker(job):
     try:
+        if job["harness"].startswith("crosshair:"):
+            from vf import crosshair_job
+            r = crosshair_job.run(job["harness"].split(":", 1)[1], job["params"].get("timeout_s", 60))
+            from vf.common import src_hash
+            import pybads.bads.optimize_result as ormod, pybads.utils.iteration_history as ihmod
+            r["functions"] = [src_hash(ormod.OptimizeResult.__setitem__), src_hash(ormod.OptimizeResult.__getattr__), src_hash(ihmod.IterationHistory.record),
+                              src_hash(ihmod.IterationHistory.__setitem__), src_hash(ihmod.IterationHistory._expand_array)]
+            return job, r, None
         H = make_harness(job["harness"], job["params"])
         r = explore(H, roots=job.get("roots"), max_paths=job.get("chunk", 400),
                     deadline=job.get("deadline"), timeout_ms=job.get("timeout_ms", 20000),
